@@ -134,6 +134,8 @@ def tzinfos_forms():
             ('map-int', {'EST': -18000, 'BRST': -7200, 'XYZT': 3600, 'NOVST': 25200}),
             ('map-str', {'EST': 'EST5EDT', 'BRST': 'BRST3'}),
             ('map-none', {'EST': None, 'BRST': None}),
+            ('map-int-zero', {'EST': 0, 'GMT': 0, 'UTC': 0, 'XYZT': 0, 'MSK': 0}),
+            ('callable-zero', lambda name, off: 0),
             ('callable', lambda name, off: PROBE),
             ('callable-int', lambda name, off: 5400),
             ('callable-none', lambda name, off: None)]
@@ -410,7 +412,7 @@ def run(ctx):
                 [((i, j, k), 4) for i in range(n) for j in range(n) for k in range(n)]
     ctx.explore('strict-implies-fuzzy', cases, 'eval_strict_implies_fuzzy', chunk=32)
     ctx.coverage_extra.update({
-        'bounds': {'partial_texts': len(PARTIALS), 'defaults': len(DEFAULTS), 'zone_texts': len(ZTEXTS), 'tzinfos_forms': 8,
+        'bounds': {'partial_texts': len(PARTIALS), 'defaults': len(DEFAULTS), 'zone_texts': len(ZTEXTS), 'tzinfos_forms': 10,
                    'tz_envs': [str(e) for e in TZENVS], 'fuzzy_templates': len(FUZZY_TEMPLATES), 'fillers': len(FILLERS),
                    'token_depth': depth},
         'accepted_strict_texts': ctx.counts['accepted_strict'],
